@@ -1,16 +1,19 @@
 #!/bin/bash
-# dev helper: for every "fix:" commit in /repo, reverse-apply it to the working tree, run the check that reported the
-# defect, expect exit 1 + VIOLATION, and restore the tree. Usage: dev/revert_test.sh [logfile]
+# dev helper: for every "fix:" commit in /repo, reverse-apply it in a scratch worktree (never in /repo), run the check
+# that reported the defect against that tree, expect exit 1 + VIOLATION. Usage: dev/revert_test.sh [logfile]
 out=${1:-/var/tmp/revert.log}; : > $out
+wt=/tmp/wt-revert
 cd /repo
-git diff --quiet || { echo "/repo is dirty" ; exit 2; }
+[ -d $wt ] || git worktree add -q --detach $wt HEAD
+(cd $wt && git checkout -q -- . && git checkout -q --detach $(git -C /repo rev-parse HEAD))
 while read hash prop harness; do
+  [ -z "$hash" ] && continue
   echo "=== $hash $prop $harness : $(git log --format=%s -1 $hash)" >> $out
-  if ! git diff $hash^ $hash | git apply -R 2>>$out; then echo "RESULT $hash cannot-reverse" >> $out; git checkout -- .; continue; fi
-  (cd /verif && timeout 1200 ./check $prop quick -only $harness) > /var/tmp/revert_one.log 2>&1; code=$?
-  grep -E "VIOLATION|INCONCLUSIVE|^  Verif" /var/tmp/revert_one.log | cut -c1-220 | head -8 >> $out
+  if ! (cd $wt && git -C /repo diff $hash^ $hash | git apply -R 2>>$out); then echo "RESULT $hash cannot-reverse (later commits touch the same lines)" >> $out; (cd $wt && git checkout -q -- .); continue; fi
+  (cd /verif && VERIF_REPO=$wt timeout 1500 ./check $prop quick -only $harness) > /var/tmp/revert_one.log 2>&1; code=$?
+  grep -E "VIOLATION|INCONCLUSIVE|KNOWN|^  Verif" /var/tmp/revert_one.log | cut -c1-200 | head -6 >> $out
   echo "RESULT $hash exit=$code" >> $out
-  git checkout -- .
+  (cd $wt && git checkout -q -- .)
 done <<'LIST'
 c2d939d C08 VerifC08_SeqMonotone
 19512dc C01 VerifC01_ValueShapes
@@ -32,5 +35,14 @@ dd8f819 C19 VerifC19_TxHandles
 37219a5 C03 VerifC03_FailedCommitNoTrace
 3cad002 C18 VerifC18_ReaderVsInsert
 1b8c186 C01 VerifC01_ReadLatest
+875b89b C10 VerifC10_DamageThenWriteThenRecover
+50b019a C01 VerifC01_ReadFromTables
+4ea7daa C11 VerifC11_FlipOneByte
+ef4c1bc C20 VerifC20_SaveCrashAtomic
+afbe218 C20 VerifC20_SaveLoad
+776c121 C15 VerifC15_PollVsWriteNoDeadlock
+94370e8 C12 VerifC12_CompactPreservesView
+9b089c3 C02 VerifC02_CrashDuringMaintenance
 LIST
 echo ALLDONE >> $out
+(cd /repo && git worktree remove --force $wt)
